@@ -139,6 +139,9 @@ def run(ctx):
     check_sort(ctx)
     check_fit_rows(ctx)
     check_alias_and_scale(ctx)
+    # 'in every row the A_V, scale, chi^2 and predicted fluxes belong to the same model': the chi^2 stored is the chi^2 of the row's own A_V and scale
+    from . import c01
+    c01.check_fit_2d(ctx)
 
 
 FI = 'sedfitter/fit_info.py'
